@@ -293,18 +293,24 @@ theorem dna_parametrisation (kbp um T : ℝ) :
 
 /-! ## finding F9: the inversion's initial guess is the constant 1.0 -/
 
-/-- Witness for finding F9 (model of the code as it is): inverting the Marko–Siggia force model of a
-    0.5 µm tether over its physical range `[0, 0.45]` µm — on which it is increasing — is refused
-    (`ValueError`), because SciPy is started from the hard-coded guess `1.0`, outside the limits. -/
-theorem F9_witness :
-    (M.inv (M.base Kind.msF "m") (0 : ℝ) 0.45 false).check [(40 : ℝ), 0.5, 4.11] = some Err.value := by
-  simp only [M.check, Kind.check, anyLe0, guessOutside, RealLike.le, RealLike.lt, List.any_cons,
+/-- Witness for finding F19 (the pinned code, kept as `guessOutside`): SciPy was started from the
+    hard-coded guess `1.0`, so inversion limits `[0, 0.45]` — the physical range of a 0.5 µm tether, on
+    which the Marko–Siggia force model is increasing — were refused with `ValueError`. -/
+theorem F9_witness : guessOutside (0 : ℝ) 0.45 = some Err.value := by
+  simp only [guessOutside, RealLike.le, RealLike.lt]
+  norm_num
+
+/-- …whereas the repaired call (initial guess clipped into the limits) accepts them. -/
+example :
+    (M.inv (M.base Kind.msF "m") (0 : ℝ) 0.45 false).check [(40 : ℝ), 0.5, 4.11] = none := by
+  simp only [M.check, Kind.check, anyLe0, limitsEmpty, RealLike.le, RealLike.lt, List.any_cons,
     List.any_nil]
   norm_num
 
-/-- …whereas limits that contain `1.0` pass the same guard. -/
-example : (M.inv (M.base Kind.msF "m") (0 : ℝ) 1.45 false).check [(40 : ℝ), 1.5, 4.11] = none := by
-  simp only [M.check, Kind.check, anyLe0, guessOutside, RealLike.le, RealLike.lt, List.any_cons,
+/-- Empty limits are still refused. -/
+example :
+    (M.inv (M.base Kind.msF "m") (2 : ℝ) 1 false).check [(40 : ℝ), 0.5, 4.11] = some Err.value := by
+  simp only [M.check, Kind.check, anyLe0, limitsEmpty, RealLike.le, RealLike.lt, List.any_cons,
     List.any_nil]
   norm_num
 
